@@ -69,3 +69,50 @@ Theorem C11_kind_name_refuted :
   expect_test KD [] [("NEWLINE", 4%N); ("NUMBER", 2%N)] "NUMBER" (tk 2 "42") = true.
 Proof. vm_compute. split; reflexivity. Qed.
 Print Assumptions C11_kind_name_refuted.
+
+(* ... and the tables the GENERATOR emits are these, for EVERY grammar (Proofs/GenKw.v, Proofs/GenKwSound.v):
+   whatever the analysis results and tables, if the repetition / gather / group nodes of the grammar carry
+   pairwise distinct identities (they are distinct objects in the implementation; the translator numbers
+   them), the KEYWORDS table of the module the generator model emits has exactly the members of
+   [hard_keywords g] and SOFT_KEYWORDS exactly those of [soft_keywords g] -- every quoted
+   identifier-like literal at any nesting depth is collected (through the call maker's node cache and
+   the work list of helper rules, to the end), and nothing else is.  With C11_name_excludes_keywords
+   and C11_soft_keyword_membership: in every generated parser NAME refuses exactly the single-quoted
+   words of the grammar and SOFT_KEYWORD accepts exactly the double-quoted ones. *)
+From Pegen Require Import Analysis.Nullable Proofs.GenKw Proofs.GenKwSound.
+Theorem C11_generated_keyword_tables_are_exactly_the_quoted_words :
+  forall invalid_tbl iter_fields pre suf file fb g an M,
+  ids_distinct g ->
+  generate invalid_tbl iter_fields pre suf file fb g an = inl M ->
+  (forall w, In w (i_keywords M) <-> In w (hard_keywords g)) /\
+  (forall w, In w (i_soft_keywords M) <-> In w (soft_keywords g)).
+Proof. exact generated_keyword_tables_are_exact. Qed.
+Print Assumptions C11_generated_keyword_tables_are_exactly_the_quoted_words.
+
+(* non-vacuity: keywords hidden in a gather separator, a group alternative, an optional, under a forced item and
+   inside a repetition.   start: 'sep'.(a | "soft")+ ['opt'] &&'end' NEWLINE ; a: NAME ; b: ('x' 'inner')* *)
+Definition g11 : grammar :=
+  {| rules :=
+       [{| rname := "start"; rtype := None; rmemo := false;
+           rrhs := Rhs 1 [Alt [NItem 2 None None (Gather 3 (StringLeaf "'sep'")
+                                   (Group (Rhs 4 [Alt [NItem 5 None None (NameLeaf "a")] None; Alt [NItem 6 None None (StringLeaf """soft""")] None])));
+                                NItem 7 None None (Opt (StringLeaf "'opt'"));
+                                NItem 8 None None (Forced (StringLeaf "'end'"));
+                                NItem 9 None None (NameLeaf "NEWLINE")] None] |};
+        {| rname := "a"; rtype := None; rmemo := false; rrhs := Rhs 10 [Alt [NItem 11 None None (NameLeaf "NAME")] None] |};
+        {| rname := "b"; rtype := None; rmemo := false;
+           rrhs := Rhs 12 [Alt [NItem 13 None None (Repeat0 14 (Group (Rhs 15 [Alt [NItem 16 None None (StringLeaf "'x'");
+                                                                                   NItem 17 None None (StringLeaf "'inner'")] None])))] None] |}];
+     metas := [] |}.
+Example C11_generated_example :
+  ids_distinct g11 /\
+  match generate [] [] "" "" "g" 100 g11 {| a_nullable := ["b"]; a_item_nullable := [7%N; 13%N]; a_graph := []; a_left_rec := []; a_leaders := [] |} with
+  | inl M => i_keywords M = ["end"; "inner"; "opt"; "sep"; "x"] /\ i_soft_keywords M = ["soft"]
+  | inr _ => False
+  end.
+Proof.
+  split; [|vm_compute; split; reflexivity].
+  intros n1 n2 H1 H2 Hid. vm_compute in H1, H2.
+  repeat (destruct H1 as [<-|H1]); repeat (destruct H2 as [<-|H2]); try reflexivity; try (vm_compute in Hid; discriminate Hid); try contradiction.
+Qed.
+Print Assumptions C11_generated_example.
